@@ -303,6 +303,7 @@ int SimulateTms1000::dump_ram(int start, int end)
 {
   printf("RAM:");
 
+  if (start < 0) { start = 0; }
   if (end >= 64) { end = 63; }
 
   for (int i = start; i <= end; i++)
@@ -322,7 +323,7 @@ int SimulateTms1000::dump_ram(int start, int end)
 
 int SimulateTms1000::execute(uint8_t opcode, uint8_t &update_s)
 {
-  const int xy = reg_x << 4 | reg_y;
+  const int xy = ((reg_x << 4) | reg_y) & 0x3f;
 
   if ((opcode & 0xfc) == 0x3c)
   {
